@@ -280,9 +280,10 @@ theorem mem_sortBy {α} (key : α → String) (l : List α) (x : α) : x ∈ sor
   unfold sortBy; exact (List.mergeSort_perm l _).mem_iff
 
 /-- what makes a declaration a target of its package: exported name, a valid target signature, and either no receiver
-or a receiver whose base type is an exported type declared as `mg.Namespace` -/
+or a receiver whose base type is an exported type declared as `mg.Namespace`; a generic function (type parameters)
+cannot be called without instantiation and is no target -/
 def IsTargetDecl (p : Pkg) (d : FuncDecl) : Prop :=
-  d ∈ p.files.flatMap (·.funcs) ∧ exported d.name = true ∧ (∃ s, funcType d.params d.results = .ok s) ∧
+  d ∈ p.files.flatMap (·.funcs) ∧ exported d.name = true ∧ d.typeParams = false ∧ (∃ s, funcType d.params d.results = .ok s) ∧
   (d.recv = none ∨ ∃ r t, d.recv = some r ∧ t ∈ p.files.flatMap (·.types) ∧ isNamespaceDecl t = true ∧ t.name = r.base)
 
 /-- **The targets of a package are exactly the exported functions (and methods on exported `mg.Namespace` types) with
@@ -296,12 +297,12 @@ theorem targets_exact (p : Pkg) (f : Function) :
   simp only [List.mem_append, List.mem_flatMap, List.mem_filterMap, mem_sortBy, List.mem_filter, Bool.and_eq_true,
     beq_iff_eq, Option.isNone_iff_eq_none]
   constructor
-  · rintro (⟨t, ⟨ht, hns⟩, d, ⟨hd, hr, he⟩, hf⟩ | ⟨d, ⟨hd, hr, he⟩, hf⟩)
+  · rintro (⟨t, ⟨ht, hns⟩, d, ⟨hd, ⟨hr, he⟩, htp⟩, hf⟩ | ⟨d, ⟨hd, ⟨hr, he⟩, htp⟩, hf⟩)
     · cases hs : funcType d.params d.results with
       | error e => rw [hs] at hf; cases hf
       | ok s =>
         rw [hs] at hf; simp only [Option.some.injEq] at hf
-        refine ⟨d, s, ⟨hd, he, ⟨s, hs⟩, Or.inr ?_⟩, hs, hf.symm⟩
+        refine ⟨d, s, ⟨hd, he, by simpa using htp, ⟨s, hs⟩, Or.inr ?_⟩, hs, hf.symm⟩
         cases hrv : d.recv with
         | none => rw [hrv] at hr; simp at hr
         | some r =>
@@ -312,13 +313,13 @@ theorem targets_exact (p : Pkg) (f : Function) :
       | error e => rw [hs] at hf; cases hf
       | ok s =>
         rw [hs] at hf; simp only [Option.some.injEq] at hf
-        exact ⟨d, s, ⟨hd, he, ⟨s, hs⟩, Or.inl hr⟩, hs, hf.symm⟩
-  · rintro ⟨d, s, ⟨hd, he, _, hrecv⟩, hs, rfl⟩
+        exact ⟨d, s, ⟨hd, he, by simpa using htp, ⟨s, hs⟩, Or.inl hr⟩, hs, hf.symm⟩
+  · rintro ⟨d, s, ⟨hd, he, htp, _, hrecv⟩, hs, rfl⟩
     rcases hrecv with hr | ⟨r, t, hr, ht, hns, hname⟩
     · right
-      exact ⟨d, ⟨hd, hr, he⟩, by rw [hs]⟩
+      exact ⟨d, ⟨hd, ⟨hr, he⟩, by simp [htp]⟩, by rw [hs]⟩
     · left
-      refine ⟨t, ⟨ht, hns⟩, d, ⟨hd, ?_, he⟩, by rw [hs]⟩
+      refine ⟨t, ⟨ht, hns⟩, d, ⟨hd, ⟨?_, he⟩, by simp [htp]⟩, by rw [hs]⟩
       rw [hr]; simp [hname]
 
 
@@ -330,13 +331,13 @@ theorem targets_order_independent (p p' : Pkg)
     f ∈ collectFuncs p ↔ f ∈ collectFuncs p' := by
   rw [targets_exact, targets_exact]
   constructor
-  · rintro ⟨d, s, ⟨h1, h2, h3, h4⟩, h5, h6⟩
-    refine ⟨d, s, ⟨(hf d).mp h1, h2, h3, ?_⟩, h5, h6⟩
+  · rintro ⟨d, s, ⟨h1, h2, htp, h3, h4⟩, h5, h6⟩
+    refine ⟨d, s, ⟨(hf d).mp h1, h2, htp, h3, ?_⟩, h5, h6⟩
     rcases h4 with h | ⟨r, t, a, b, c, e⟩
     · exact Or.inl h
     · exact Or.inr ⟨r, t, a, (ht t).mp b, c, e⟩
-  · rintro ⟨d, s, ⟨h1, h2, h3, h4⟩, h5, h6⟩
-    refine ⟨d, s, ⟨(hf d).mpr h1, h2, h3, ?_⟩, h5, h6⟩
+  · rintro ⟨d, s, ⟨h1, h2, htp, h3, h4⟩, h5, h6⟩
+    refine ⟨d, s, ⟨(hf d).mpr h1, h2, htp, h3, ?_⟩, h5, h6⟩
     rcases h4 with h | ⟨r, t, a, b, c, e⟩
     · exact Or.inl h
     · exact Or.inr ⟨r, t, a, (ht t).mpr b, c, e⟩
